@@ -261,6 +261,11 @@ class ChildrenList(list):
         for index, item in enumerate(items):
             self._validate_item(len(self) + index, item)
             self._check_is_orphan(item)
+            if any(item is other for other in items[:index]):
+                raise GenerationError(
+                    f"Item '{item.coloured_name(False)}' can't be added as "
+                    f"child of '{self._node_reference.coloured_name(False)}' "
+                    f"more than once.")
         super().extend(items)
         for item in items:
             self._set_parent_link(item)
